@@ -6,7 +6,7 @@
    repaired by the fix: commits 50fc060 and 1070095). *)
 From Coq Require Import ZArith List Bool Lia.
 From Mistletoe Require Import Base.Sx Base.PyStr Base.PyText Gen.GenTables Gen.GenConfig Model.Tree Model.CoreTokens Model.Block Model.Build
-     Model.MarkdownRenderer Model.Parser Proofs.PlainProse Proofs.Prose Proofs.ProseLines Proofs.ListLaw Proofs.FenceLaw Spec.Fragment Proofs.InertProse Proofs.RefSentence Proofs.LinkSentence Proofs.EmphPhrases Proofs.LinkPhrases Proofs.MixPhrases Proofs.CodeSpan Proofs.HardBreaks Proofs.BreakBlocks Proofs.StrikeSentence Proofs.EscSentence Proofs.ImageSentence Proofs.LeafSpans Proofs.OneInline Proofs.EmphSimple Proofs.NestedEmph Proofs.TitleLink Proofs.AutoLinkSentence Proofs.AngleLink Proofs.FragmentP Proofs.FragmentDoc Proofs.FragmentHtml.
+     Model.MarkdownRenderer Model.Parser Proofs.PlainProse Proofs.Prose Proofs.ProseLines Proofs.ListLaw Proofs.FenceLaw Spec.Fragment Proofs.InertProse Proofs.RefSentence Proofs.LinkSentence Proofs.EmphPhrases Proofs.LinkPhrases Proofs.MixPhrases Proofs.CodeSpan Proofs.HardBreaks Proofs.BreakBlocks Proofs.StrikeSentence Proofs.EscSentence Proofs.ImageSentence Proofs.LeafSpans Proofs.OneInline Proofs.EmphSimple Proofs.NestedEmph Proofs.TitleLink Proofs.AutoLinkSentence Proofs.AngleLink Proofs.LinkEmph Proofs.FragmentP Proofs.FragmentDoc Proofs.FragmentHtml.
 Import ListNotations.
 Local Open Scope Z_scope.
 
@@ -337,7 +337,7 @@ Section RT.
     assert (EF : exists frs, flat_map frags (RawText (c0 :: pre) :: inl_tok x :: EmphSentence.raw_if post) =
                  Fw (c0 :: pre) :: frs ++ match post with [] => [] | _ => [Fw post] end /\
                  Forall (fun f => mem 10 (ftext f) = false) frs /\ concat (map ftext frs) = inl_text x).
-    { destruct x as [w|c|w d|ch k h ps z|w d q tl|u0 usc ur|aw a0 ad]; cbn [inl_tok inl_text] in *.
+    { destruct x as [w|c|w d|ch k h ps z|w d q tl|u0 usc ur|aw a0 ad|eh eps ez ed]; cbn [inl_tok inl_text] in *.
       - exists [F $"~~"; Fw w; F $"~~"]. split; [destruct post; reflexivity|]. split; [|reflexivity].
         unfold mem in N10. rewrite !existsb_app in N10. apply orb_false_iff in N10 as [_ N10]. apply orb_false_iff in N10 as [N10 _].
         repeat constructor; cbn [ftext F Fw]; try reflexivity. exact N10.
@@ -376,7 +376,15 @@ Section RT.
         repeat constructor; cbn [ftext F Fw]; try reflexivity; try assumption.
         cbn [inl_ok] in Hok. unfold alink_ok in Hok. repeat rewrite andb_true_iff in Hok. destruct Hok as [[_ Hd'] _].
         pose proof (adest_no 10 (a0 :: ad) (or_introl eq_refl) Hd') as X.
-        unfold mem. rewrite !existsb_app. fold (mem 10 (a0 :: ad)). rewrite X. reflexivity. }
+        unfold mem. rewrite !existsb_app. fold (mem 10 (a0 :: ad)). rewrite X. reflexivity.
+      - cbn [inl_ok] in Hok. unfold elink_ok in Hok. repeat rewrite andb_true_iff in Hok. destruct Hok as [[[[[[[[_ H2] _] H4] _] H6] _] H8] _].
+        assert (Hps : Forall phrase_ok eps) by (apply Forall_forall; intros p Hp; rewrite forallb_forall in H4; apply EmphPhrases.phrase_okb_spec; apply H4; exact Hp).
+        destruct (nest_frags eps eh ez H2 H6 Hps) as [HF E].
+        exists ([F $"["] ++ flat_map frags (nest_toks eh eps ez) ++ [F $"]"; F $"("; F ed; F $")"]). split; [|split].
+        + unfold elink_of. destruct post; cbn [flat_map frags app EmphSentence.raw_if l_dest_type l_target l_title title_frags str_eqb]; rewrite ?app_nil_r, <- ?app_assoc; reflexivity.
+        + apply Forall_app. split; [repeat constructor|]. apply Forall_app. split; [exact HF|]. repeat constructor; cbn [ftext F]; try reflexivity.
+          apply dest_no; [reflexivity|exact H8].
+        + rewrite !map_app, !concat_app, E. cbn [map concat ftext F app]. rewrite ?app_nil_r. repeat (rewrite <- ?app_assoc; cbn [app]). reflexivity. }
     destruct EF as (frs & -> & Hf & Ec).
     rewrite plain_from_flat.
     - assert (E : concat (map ftext (Fw (c0 :: pre) :: frs ++ match post with [] => [] | _ => [Fw post] end)) = c0 :: one_body pre x post).
